@@ -137,7 +137,8 @@ func (c *BindingManager) RemoveBinding(data model.BindingManagementDeleteCallTyp
 	for _, item := range c.bindingEntries {
 		itemAddress := item.ClientFeature.Address()
 
-		if !reflect.DeepEqual(*itemAddress, clientAddress) ||
+		if item.ClientFeature.Device().Ski() != remoteDevice.Ski() ||
+			!reflect.DeepEqual(*itemAddress, clientAddress) ||
 			!reflect.DeepEqual(item.ServerFeature, serverFeature) {
 			newBindingEntries = append(newBindingEntries, item)
 		}
